@@ -45,6 +45,11 @@ CHECKS["C14"] = dict(cat=MC, engine="E1 xsched (deviation-bounded DFS over sched
    text="For every stall offset k of an HTTP-style client, every API handler (live, history, rules GET/POST, metrics, logrotate, status), a complete fresh connection (create_context, handshake, routing, relay, finish), optionally a second stalled client, a request whose upstream never answers and the GC, every schedule within the deviation bound is executed on the real code; at quiescence only the stalled peers' own futures may remain blocked and the API call and the fresh connection must have been served.",
    note="Trusts: the explorer's ownership of scheduling (replays compared; HashMap-order divergences retried). Handshake-phase writes are always accepted. Real-socket accept paths (SOCKS, QUIC) are not reachable in memory.",
    ref="DESIGN.md §3 C14")
+CHECKS["C17"] = dict(cat=MC, engine="E3 loom (real LoadBalanceConnector::connect, cursor as loom atomic) + E2 xseq",
+   technique="loom exhaustive interleaving exploration (preemption bound 3, thorough 4) of 2-3 threads selecting through the real connect(); exhaustive sequential windows/offsets for round robin; hashBy stickiness over key expressions x request pool",
+   text="Concurrent round robin: 2-3 loom threads x 1-3 selections each through the real connect() with the cursor switched to a loom atomic (H2), every interleaving: each member selected exactly k times, recorded member = used member. Sequential: member counts 1..5 x every cursor offset x every window; hashBy: 7 string key expressions (incl. bare request.target / request.source) x a 36-request pool in which equal key strings arise from different address forms, twice; non-string keys must be rejected by init; random: members only.",
+   note="Trusts loom's model of the atomic; tokio locks of per-thread contexts are uncontended. The frequency clause of `random` is SAMPLED (4000 draws), labelled as such. Cursor wrap at usize::MAX out of reach.",
+   ref="DESIGN.md §3 C17")
 NOT_YET = "check not built yet in this revision (see DESIGN.md §3 for the planned model-checking design)"
 def main():
     checks = []
@@ -79,6 +84,7 @@ def main():
         },
         "engines": [
             {"name": "E1 xsched", "path": "harness/src/verif/xsched.rs", "serves_properties": ["C14"], "kind_free_text": "stateless deviation-bounded DFS over task schedules and scripted environment answers of real async code"},
+            {"name": "E3 loom", "path": "harness/src/verif/c17.rs", "serves_properties": ["C17"], "kind_free_text": "loom exhaustive interleavings of the real load balancer (feature loomlb => cfg(redproxy_verif_loom))"},
             {"name": "E2 xseq", "path": "harness/src/verif/", "serves_properties": [p for p in CHECKS], "kind_free_text": "bounded-exhaustive operation-sequence / input-shape enumeration on the real code vs reference model"},
         ],
         "checks": checks,
